@@ -41,16 +41,16 @@ theorem romanAux_table (n : Nat) :
     Spec.Labels.romanAux Spec.Labels.romanTable n =
       (List.replicate (n / 1000) [109]).flatten ++ Spec.Labels.romanAux Spec.Labels.romanTable.tail (n % 1000) := rfl
 
-/-- `format_int_roman` for EVERY positive value: repeated `m` for the thousands (however many),
+/-- `format_int_roman` for EVERY value the assertion lets through: repeated `m` for the thousands (however many),
 then the swept low part. -/
-theorem formatIntRoman_all (n : Nat) (h : 0 < n) :
+theorem formatIntRoman_all (n : Nat) (h : 0 < n) (hmax : (n : Int) < ROMAN_MAX) :
     formatIntRoman (n : Int) = .ok (Spec.Labels.romanAux Spec.Labels.romanTable n) := by
   have hk := all_range_lift romanLowOk_all (n % 1000) (Nat.mod_lt _ (by decide))
   unfold romanLowOk at hk
   unfold formatIntRoman
   have h0 : (0 : Int) < n := by omega
   have hm : listGet ROMAN_ONES 3 = .ok [109] := rfl
-  simp only [h0, if_true, Int.toNat_natCast]
+  simp only [h0, hmax, and_self, if_true, Int.toNat_natCast]
   cases hr : romanLoop 3 (n % 1000) 0 [] with
   | error e => rw [hr] at hk; simp at hk
   | ok r =>
